@@ -76,6 +76,8 @@ type wal struct {
 
 	// The last offset synced in the Wal.
 	lastSyncedOffset atomic.Int64
+	// Number of times the log was truncated or cleared (protected by the mutex)
+	truncations int64
 
 	ctx          context.Context
 	cancel       context.CancelFunc
@@ -392,6 +394,7 @@ func (t *wal) runSync() {
 		t.Lock()
 		segment := t.currentSegment
 		lastAppendedOffset := t.lastAppendedOffset.Load()
+		truncations := t.truncations
 		t.Unlock()
 
 		var err error
@@ -401,7 +404,14 @@ func (t *wal) runSync() {
 				t.writeErrors.Inc()
 			} else {
 				timer.Done()
-				t.lastSyncedOffset.Store(lastAppendedOffset)
+				// If the log was truncated or cleared while the flush was in progress, the
+				// entries that were flushed might not be there anymore: the truncation has
+				// already set the synced offset
+				t.Lock()
+				if t.truncations == truncations {
+					t.lastSyncedOffset.Store(lastAppendedOffset)
+				}
+				t.Unlock()
 			}
 		}
 
@@ -452,6 +462,8 @@ func (t *wal) checkNextOffset(nextOffset int64) error {
 func (t *wal) Clear() error {
 	t.Lock()
 	defer t.Unlock()
+
+	t.truncations++
 
 	err := multierr.Combine(
 		t.currentSegment.Close(),
@@ -505,6 +517,8 @@ func (t *wal) TruncateLog(lastSafeOffset int64) (int64, error) { //nolint:revive
 
 	t.Lock()
 	defer t.Unlock()
+
+	t.truncations++
 
 	lastIndex := t.lastAppendedOffset.Load()
 	if lastIndex == InvalidOffset {
